@@ -621,6 +621,9 @@ def tok(src, k):
 def has_tok(src, k):
     if k == I(0):
         return T.TRUE       # split always yields a first token
+    limit = src[2][1]
+    if k[0] == 'int' and limit[0] == 'int' and k[1] >= limit[1]:
+        return T.FALSE      # splitn(n, ..) yields at most n tokens
     return ('call', 'has_tok', (src, k))
 
 
